@@ -8,4 +8,41 @@ UNITS = [(M, "Hydration.hydrate"), (M, "Hydration._hydrate_one"), (M, "unmarshal
                            "serialize_container_file_output", "serialize_container_command", "deserialize_command_output",
                            "deserialize_text_provider", "deserialize_raw_file_provider", "deserialize_datasource_provider",
                            "deserialize_container_file", "deserialize_container_command")]
-NOT_CARRIED = []
+NOT_CARRIED = ["line content equality (join / split of lines through a file): induction over lists of strings that neither solver does; covered by "
+               "the bounded round trip only (labelled bounded)",
+               "marshal (partial / map / pool.map over a nested function) and dehydrate (heterogeneous document literal, conditional expression "
+               "statements) are not under contract: element order through marshal, 'a failed component is persisted with its errors' and "
+               "the document written iff results or errors are covered by the bounded round trip only",
+               "ContentProvider.write / load, FileProvider / SerializedOutputProvider constructors: assumed contracts (store their arguments, "
+               "write to the path given)",
+               "json.dump / json.load: assumed the identity up to tuple -> list; os.path.join / basename / glob / open: uninterpreted, deterministic",
+               "archive detection and broker seeding (hydration.py, dr.run seeding branch): covered by C01's contracts on run_components "
+               "(a component already in the broker is not recomputed), not repeated here",
+               "unmarshal is seen by _hydrate_one as a deterministic function `um` (its own contract is verified separately: verify_only)"]
+
+
+def bounded(check):
+    """bounded stand-in: the real dehydrate -> archive -> hydrate round trip on small contents, save-as variants, corruption patterns"""
+    import json, os, subprocess
+    n = 4 if check.tier == "quick" else 6
+    here = os.path.dirname(os.path.dirname(os.path.abspath(__file__)))
+    p = subprocess.run(["/venv/bin/python", os.path.join(here, "bounded", "serde_roundtrip.py"), check.repo.root, str(n)],
+                       stdout=subprocess.PIPE, stderr=subprocess.PIPE, universal_newlines=True, timeout=3000)
+    line = (p.stdout.strip().splitlines() or ["{}"])[-1]
+    try:
+        info = json.loads(line)
+    except ValueError:
+        info = {"error": (p.stderr or p.stdout)[-400:]}
+    out = dict(name="dehydrate/hydrate round trip: content lines, save-as rule, cmd/args, multi-output order (serial and pooled), corruption tolerance, "
+                    "errors persisted", level="bounded",
+               bound="all sequences of <= %d lines over 5 line shapes x (datasource, text file[, raw file]); 3 save-as variants; 4-element multi-output; "
+                     "3 entries x every subset x 5 corruption kinds" % n,
+               result=info, violation=(p.returncode == 1), error=(p.returncode not in (0, 1)))
+    if p.returncode == 1:
+        os.makedirs(os.path.join(here, "replays"), exist_ok=True)
+        path = os.path.join(here, "replays", "C11-bounded.json")
+        json.dump(dict(obligation="bounded:serde-roundtrip", witness=info,
+                       replay_cmd="/venv/bin/python %s %s %d" % (os.path.join(here, "bounded", "serde_roundtrip.py"), check.repo.root, n)),
+                  open(path, "w"), indent=1)
+        out["replay"] = path
+    return [out]
